@@ -209,6 +209,46 @@ Lemma type_roundtrip t : type_ok t = true ->
   type_new (S (length (print_type t))) (print_type t) = Some t.
 Proof. intros H. apply type_new_print; [|exact H]. pose proof (type_depth_len t). lia. Qed.
 
+(* ------------------------------------ block strings: line predicates --- *)
+(* the builder's notion of a blank line / of indentation is the
+   specification's: only TAB and SPACE are WhiteSpace *)
+Lemma is_blank_ws c : is_blank c = is_ws c.
+Proof. reflexivity. Qed.
+
+Lemma is_blank_iff c : is_blank c = true <-> c = 9 \/ c = 32.
+Proof.
+  unfold is_blank. rewrite orb_true_iff, !N.eqb_eq. tauto.
+Qed.
+
+Lemma has_content_only_ws l : has_content l = negb (only_ws l).
+Proof.
+  unfold has_content, only_ws. induction l as [|c l IH]; [reflexivity|].
+  cbn [existsb forallb]. rewrite IH. rewrite is_blank_ws. destruct (is_ws c); reflexivity.
+Qed.
+
+Lemma indent_of_leading_ws l :
+  indent_of l = if (leading_ws l <? length l)%nat then Some (leading_ws l) else None.
+Proof.
+  induction l as [|c l IH]; [reflexivity|].
+  cbn [indent_of leading_ws length]. rewrite is_blank_ws. destruct (is_ws c).
+  - rewrite IH. change (S (leading_ws l) <? S (length l))%nat with (leading_ws l <? length l)%nat.
+    destruct (leading_ws l <? length l)%nat; reflexivity.
+  - reflexivity.
+Qed.
+
+Lemma leading_ws_le l : (leading_ws l <= length l)%nat.
+Proof. induction l as [|c l IH]; cbn [leading_ws length]; [lia|]. destruct (is_ws c); lia. Qed.
+
+(* a line is blank for the builder exactly when it is all TAB/SPACE *)
+Lemma has_content_false_iff l :
+  has_content l = false <-> forall c, In c l -> c = 9 \/ c = 32.
+Proof.
+  rewrite has_content_only_ws, negb_false_iff. unfold only_ws. rewrite forallb_forall.
+  split; intros H c Hc; specialize (H c Hc).
+  - apply is_blank_iff. rewrite is_blank_ws. exact H.
+  - rewrite <- is_blank_ws. apply is_blank_iff. exact H.
+Qed.
+
 (* ------------------------------------------------ concrete strings ------ *)
 Definition s_block_escape : str := [120; 92; 34; 34; 34; 121].                  (* x, backslash, three quotes, y *)
 Definition s_block_blank : str := [10; 32; 32; 32; 32; 97; 10; 32; 32; 10; 32; 32; 32; 32; 98; 10].
